@@ -3,6 +3,7 @@ package mempoolrig
 import (
 	"fmt"
 	"math/big"
+	"testing/synctest"
 	"time"
 
 	"github.com/lianxiangcloud/linkchain/libs/common"
@@ -230,38 +231,73 @@ func (e *Engine) checkLedger() {
 // model can name one: the destination of an offered transaction gained or
 // lost code since the transaction was generated (the gas rule depends on it).
 func (e *Engine) notExecKey(site string, b *types.Block) (key, detail string) {
-	if b != nil && b.Data != nil {
-		for _, tx := range b.Data.Txs {
-			t, ok := tx.(*types.Transaction)
-			if !ok || t.To() == nil {
-				continue
-			}
-			m := e.byHash[tx.Hash()]
-			if m == nil {
-				continue
-			}
-			if now := e.hasCode(*t.To()); now != m.ToCode {
-				what := "appeared"
-				if m.ToCode {
-					what = "removed"
-				}
-				return "offer-not-executable/destination-code-" + what, fmt.Sprintf("%s was generated for a destination %x.. %s code (gas limit %d, value %v); a committed block has since %s the code and the mempool kept the transaction", e.txLabel(tx), (*t.To())[:4], map[bool]string{true: "with", false: "without"}[m.ToCode], t.Gas(), t.Value(), what)
-			}
+	generic := "offer-not-executable/" + site
+	if b == nil || b.Data == nil || len(b.Data.Txs) == 0 {
+		return generic, ""
+	}
+	txs := b.Data.Txs
+	// the first transaction the executor refuses
+	bad := -1
+	for k := 1; k <= len(txs); k++ {
+		if _, _, _, p := e.W.Propose(0, txs[:k], true); p {
+			bad = k - 1
+			break
 		}
 	}
-	return "offer-not-executable/" + site, ""
+	if bad < 0 {
+		return generic, ""
+	}
+	t, ok := txs[bad].(*types.Transaction)
+	m := e.byHash[txs[bad].Hash()]
+	if !ok || t.To() == nil || m == nil {
+		return generic, fmt.Sprintf("first refused: %s", e.txLabel(txs[bad]))
+	}
+	to := *t.To()
+	with := map[bool]string{true: "with", false: "without"}
+	if now := e.hasCode(to); now != m.ToCode {
+		what := "appeared"
+		if m.ToCode {
+			what = "removed"
+		}
+		return "offer-not-executable/destination-code-" + what, fmt.Sprintf("first refused: %s, admitted for a destination %x.. %s code (gas limit %d, value %v); a committed block has since %s the code and the mempool kept the transaction", e.txLabel(txs[bad]), to[:4], with[m.ToCode], t.Gas(), t.Value(), what)
+	}
+	// the same inside the block: an earlier transaction of the offer destroys
+	// (or creates) what this one addresses
+	for _, prev := range txs[:bad] {
+		pm := e.byHash[prev.Hash()]
+		if pm == nil || pm.Target != to {
+			continue
+		}
+		if pm.Kind == "kill" && m.ToCode {
+			return "offer-not-executable/destination-code-removed-by-earlier-offered-tx", fmt.Sprintf("first refused: %s (gas limit %d, admitted for a destination %x.. with code); %s, offered before it, self-destructs that contract", e.txLabel(txs[bad]), t.Gas(), to[:4], e.txLabel(prev))
+		}
+		if pm.Kind == "create" && !m.ToCode {
+			return "offer-not-executable/destination-code-created-by-earlier-offered-tx", fmt.Sprintf("first refused: %s (gas limit %d, admitted for a destination %x.. without code); %s, offered before it, creates a contract there", e.txLabel(txs[bad]), t.Gas(), to[:4], e.txLabel(prev))
+		}
+	}
+	return generic, fmt.Sprintf("first refused: %s", e.txLabel(txs[bad]))
 }
 
 // flushPool gets the node's mempool rid of everything it holds (after a listed
 // finding left a poisoned transaction there): let everything age out and have
 // another proposer's empty block trigger the clean-up.
 func (e *Engine) flushPool() {
-	e.drainClients()
+	if e.flushing {
+		return
+	}
+	e.flushing = true
+	defer func() { e.flushing = false }()
+	// every client returns first (no blocks can be built from this pool now)
+	for _, f := range append([]*flight(nil), e.inflight...) {
+		e.W.Finish(f.sub)
+	}
+	e.collect()
 	if e.Stopped() {
 		return
 	}
 	d := e.dropGood + time.Second
 	time.Sleep(d)
+	synctest.Wait() // the node's ticker-driven routines settle before the driver goes on
 	e.C.SimTime(d)
 	b, site, msg, panicked := e.W.Propose(0, types.Txs{}, true)
 	if panicked {
